@@ -324,7 +324,11 @@ def judge_cancel(var, oa, ob, cnt):
                 and held < Fraction(1, 10 ** 3):
             cnt["cancel_pair_on_residue_holding(not compared)"] += 1
             return viols
-        viols.append({"clause": "cancelling-pair-rejected", "signature": "cancelling-pair-rejected", "detail": msg[:200]})
+        # F6e: the s122 test sizes the return against a first-in-first-out pre-pass that drops the whole cost of lots it
+        # considers sold out; that can only bite when the security was sold before the pair's date
+        sold_before = any(t["kind"] == "SELL" and t["ticker"] == evs[0]["ticker"] and t["date"] < evs[0]["date"] for t in base)
+        sfx = ":security-has-earlier-sales" if ("exceeds allowable cost" in msg and sold_before) else ""
+        viols.append({"clause": "cancelling-pair-rejected", "signature": "cancelling-pair-rejected" + sfx, "detail": msg[:200]})
         return viols
     A, B = lc.parse_report(oa["ok"]["report"]), lc.parse_report(ob["ok"]["report"])
     diffs = lc.compare_reports(A, B, exact=False, leg_gains=False, label=("without", "with-pair"))
